@@ -68,7 +68,7 @@ theorem WF_apply {g g' : CGraph ε} (h : g.WF) (op : Op ε) (hr : op.apply g = .
   | setLagTime c e => exact WF_relabelE h _ hr
   | setBioavailability c e => exact WF_relabelE h _ hr
   | setInput c e => exact WF_relabelE h _ hr
-  | subs rates m => exact WF_relabelE (WF_mapRates h _) _ hr
+  | subs rates table => exact WF_relabelE (WF_mapRates h _) _ hr
   | roundtrip =>
     simp only [Op.apply, Except.ok.injEq] at hr; subst hr; exact WF_fromDict _
 
